@@ -133,7 +133,20 @@ def arr(a):
 
 
 def project_schedule(schedule) -> list:
-    return [[entry(s) for s in ms] for ms in schedule.schedule]
+    """[[j, p, start], ...] per machine.  An entry whose operation is not THE operation object of the schedule's
+    instance at that (job, position) - a stray or foreign Operation that got in - is logged with a sentinel job id,
+    so that the specification sees a schedule that mentions something outside the instance."""
+    jobs = getattr(getattr(schedule, "instance", None), "jobs", None)
+
+    def ent(s):
+        e = entry(s)
+        try:
+            if jobs is not None and jobs[s.operation.job_id][s.operation.position_in_job] is not s.operation:
+                e[0] = NONINT
+        except Exception:  # noqa: BLE001
+            e[0] = NONINT
+        return e
+    return [[ent(s) for s in ms] for ms in schedule.schedule]
 
 
 def project_core(dispatcher: Dispatcher) -> dict:
